@@ -79,27 +79,40 @@ type Script struct {
 	// that read it returns a timeout error at once (one time); when none is armed the read just
 	// goes on waiting and the data arrives. 0 = never.
 	IdleAt int
+	// PauseWriteAt models a reader that is slow to take the n-th Write (1-based): the Write hands over
+	// PauseWriteKeep bytes, then blocks (as a write into a full socket buffer does) until the driver calls
+	// ResumeWrite, and only then hands over the REST OF THE CALLER'S SLICE AS IT IS AT THAT MOMENT - a
+	// server that lets somebody else reuse the memory of a reply still being written shows up in the output.
+	PauseWriteAt   int
+	PauseWriteKeep int
+	// EOFWithData makes the Read that hands out the very last scripted byte return (n, io.EOF) in one
+	// call, as io.Reader permits and some transports do (crypto/tls up to 1.2 with a close_notify already
+	// queued behind the data). Only with End == EOF.
+	EOFWithData bool
 }
 
 type Conn struct {
 	mu   sync.Mutex
 	cond *sync.Cond
 
-	chunks    [][]byte
-	cur       []byte // rest of the current chunk
-	end       Ending
-	ended     bool // End() called in Hold mode: behave as endAs afterwards
-	endAs     Ending
-	failAt    int
-	failKeep  int
-	stallAt   int
-	stallKeep int
-	idleAt    int
-	idled     bool
-	rdl       time.Time // read deadline armed by the server (zero = none)
-	rdlArmed  int
-	wdl       time.Time // write deadline armed by the server (zero = none)
-	wdlArmed  int       // number of non-zero write deadlines set
+	chunks             [][]byte
+	cur                []byte // rest of the current chunk
+	end                Ending
+	ended              bool // End() called in Hold mode: behave as endAs afterwards
+	endAs              Ending
+	failAt             int
+	failKeep           int
+	stallAt            int
+	stallKeep          int
+	pauseAt, pauseKeep int
+	paused, resumed    bool
+	eofWithData        bool
+	idleAt             int
+	idled              bool
+	rdl                time.Time // read deadline armed by the server (zero = none)
+	rdlArmed           int
+	wdl                time.Time // write deadline armed by the server (zero = none)
+	wdlArmed           int       // number of non-zero write deadlines set
 
 	delivered      int
 	out            []byte
@@ -119,7 +132,7 @@ type Conn struct {
 }
 
 func New(s Script) *Conn {
-	c := &Conn{end: s.End, failAt: s.FailWriteAt, failKeep: s.FailWriteKeep, stallAt: s.StallWriteAt, stallKeep: s.StallWriteKeep, idleAt: s.IdleAt, readHash: 1469598103934665603}
+	c := &Conn{end: s.End, failAt: s.FailWriteAt, failKeep: s.FailWriteKeep, stallAt: s.StallWriteAt, stallKeep: s.StallWriteKeep, idleAt: s.IdleAt, pauseAt: s.PauseWriteAt, pauseKeep: s.PauseWriteKeep, eofWithData: s.EOFWithData && s.End == EOF, readHash: 1469598103934665603}
 	for _, ch := range s.Chunks {
 		if len(ch) > 0 {
 			c.chunks = append(c.chunks, ch)
@@ -149,6 +162,10 @@ func (c *Conn) Read(p []byte) (int, error) {
 			c.delivered += n
 			c.nReads++
 			c.readHash = (c.readHash ^ uint64(n)) * 1099511628211
+			if c.eofWithData && len(c.cur) == 0 && len(c.chunks) == 0 {
+				c.readHash = (c.readHash ^ 0xE0F) * 1099511628211
+				return n, io.EOF
+			}
 			return n, nil
 		}
 		// nothing delivered: would-block read
@@ -209,6 +226,27 @@ func (c *Conn) Write(p []byte) (int, error) {
 		c.writes = append(c.writes, WriteRec{Seq: s, Off: len(c.out), N: keep, Err: true})
 		c.out = append(c.out, p[:keep]...)
 		return keep, &net.OpError{Op: "write", Net: "tcp", Err: syscall.EPIPE}
+	}
+	if c.pauseAt > 0 && c.nWrites == c.pauseAt && !c.resumed {
+		keep := c.pauseKeep
+		if keep > len(p) {
+			keep = len(p)
+		}
+		off := len(c.out)
+		c.out = append(c.out, p[:keep]...)
+		c.paused = true
+		c.cond.Broadcast()
+		for !c.resumed && !c.closed {
+			c.cond.Wait()
+		}
+		c.paused = false
+		if c.closed {
+			c.writes = append(c.writes, WriteRec{Seq: s, Off: off, N: keep, Err: true})
+			return keep, net.ErrClosed
+		}
+		c.out = append(c.out, p[keep:]...)
+		c.writes = append(c.writes, WriteRec{Seq: s, Off: off, N: len(p)})
+		return len(p), nil
 	}
 	if c.stallAt > 0 && c.nWrites == c.stallAt && !c.wdl.IsZero() {
 		keep := c.stallKeep
@@ -294,6 +332,39 @@ func (c *Conn) MarkDone() {
 	c.mu.Lock()
 	defer c.mu.Unlock()
 	c.done = true
+	c.cond.Broadcast()
+}
+
+// WaitWritePaused blocks until the scripted Write is parked (true), or the serve call returned or the
+// connection was closed without reaching it, or the watchdog fired (false).
+func (c *Conn) WaitWritePaused(timeout time.Duration) bool {
+	stop := make(chan struct{})
+	defer close(stop)
+	go func() {
+		t := time.NewTimer(timeout)
+		defer t.Stop()
+		select {
+		case <-t.C:
+			c.mu.Lock()
+			c.cond.Broadcast()
+			c.mu.Unlock()
+		case <-stop:
+		}
+	}()
+	deadline := time.Now().Add(timeout)
+	c.mu.Lock()
+	defer c.mu.Unlock()
+	for !c.paused && !c.done && !c.closed && time.Now().Before(deadline) {
+		c.cond.Wait()
+	}
+	return c.paused
+}
+
+// ResumeWrite lets the parked Write (or a future one) complete.
+func (c *Conn) ResumeWrite() {
+	c.mu.Lock()
+	defer c.mu.Unlock()
+	c.resumed = true
 	c.cond.Broadcast()
 }
 
